@@ -93,12 +93,17 @@ func (p *VerifParser) Reset() {
 	p.buf.Reset()
 	p.t.escaped = false
 	p.t.buttondn = false
+	p.t.buttonsdn = 0
 }
 
 // SetFlags forces the cross-call state (used to start exploration from non-initial states).
 func (p *VerifParser) SetFlags(escaped, buttondn bool) {
 	p.t.escaped = escaped
 	p.t.buttondn = buttondn
+	p.t.buttonsdn = 0
+	if buttondn {
+		p.t.buttonsdn = 1 // the left button
+	}
 }
 
 // Resize sets the logical screen size used to clip mouse coordinates.
@@ -167,7 +172,7 @@ func VerifScreenDumpNoLock(s Screen) string {
 	}
 	sortStrings(fb)
 	sb.WriteString(strings.Join(fb, ","))
-	fmt.Fprintf(&sb, "|%v,%v,%d,%v", t.escaped, t.buttondn, t.buf.Len(), t.buffering)
+	fmt.Fprintf(&sb, "|%v,%v,%d,%d,%v", t.escaped, t.buttondn, t.buttonsdn, t.buf.Len(), t.buffering)
 	return sb.String()
 }
 
@@ -225,7 +230,7 @@ func VerifScreenStateHash(s Screen) uint64 {
 	add(uint64(t.cursorStyle))
 	add(uint64(t.cursorColor))
 	add(uint64(t.mouseFlags))
-	add(b(t.fini)<<0 | b(t.running)<<1 | b(t.clear)<<2 | b(t.pasteEnabled)<<3 | b(t.focusEnabled)<<4 | b(t.escaped)<<5 | b(t.buttondn)<<6 | b(t.buffering)<<7 | b(t.truecolor)<<8)
+	add(b(t.fini)<<0 | b(t.running)<<1 | b(t.clear)<<2 | b(t.pasteEnabled)<<3 | b(t.focusEnabled)<<4 | b(t.escaped)<<5 | b(t.buttondn)<<6 | uint64(t.buttonsdn)<<16 | b(t.buffering)<<7 | b(t.truecolor)<<8)
 	add(uint64(len(t.colors)))
 	add(uint64(len(t.fallback)))
 	add(uint64(len(t.title)))
